@@ -296,7 +296,10 @@ func (w *World) runStmt(ctx context.Context, c *conn, fn func() error) error {
 			what = "adv:" + wb.adv
 		}
 		w.probe("lock_wait")
-		w.parkLockWait(ctx, c.sess, what)
+		if f := w.parkLockWait(ctx, c.sess, what); f != nil && f.Kind == FShutdown {
+			c.sess.abandonStmt()
+			return errShutdown
+		}
 		if c.sess.dead || w.epochDead(c.epoch) {
 			c.sess.abandonStmt()
 			return errSessionDead
